@@ -123,6 +123,45 @@ PROPS["C17"] = {
     "assumptions": ["counters stay below overflow (2^64 events)"],
 }
 
+NET_MODELS = CRYPTO_MODELS + [
+    "mio replaced by /verif/shims/mio-model: scripted UDP socket (captures every send_to with its destination; the i-th send fails when bit i of a harness-chosen mask is set)",
+    "std::time::SystemTime::now stubbed: returns UNIX_EPOCH + a harness-chosen symbolic instant and counts its calls",
+    "std::hash::RandomState::new stubbed with fixed keys (AggregatedStats' empty map)",
+    "Responder is constructed field by field from LongTermKey::new / OnlineKey::new / make_cert / MerkleTree::new (Responder::new itself reads the thread name and hex-encodes the key, which is not the subject); Grease is seeded by the harness",
+]
+PROPS["C02"] = {
+    "functions": ["Responder::reset", "Responder::add_classic_request", "Responder::add_ietf_request", "Responder::send_responses",
+                  "Responder::make_response", "OnlineKey::make_srep", "LongTermKey::make_cert", "MerkleTree::*", "RtMessage::encode",
+                  "RtMessage::encode_framed", "Grease::should_add_error"],
+    "bounds": "independent protocol verifier (written from the Google and draft-13 descriptions, H uninterpreted) against: Merkle trees of "
+              "1..2 leaves (thorough ..5) per profile and position; whole batches of 1..2 requests (thorough 3) through send_responses with "
+              "symbolic nonces, seed and clock; make_srep / make_cert for every clock, root and seed; fault gate for every PRNG state at p=0",
+    "outside": "batches larger than 3, request sizes are abstracted to the leaf handed to add_ietf_request (8 bytes), the failing *share* under "
+               "p>0 is a probability statement (not decidable by a solver), sequences of batches beyond the tree-reuse harnesses of C04",
+    "models": NET_MODELS,
+    "assumptions": ["ed25519-dalek implements RFC 8032", "ring implements SHA-512"],
+}
+PROPS["C09"] = {
+    "functions": ["Responder::reset", "Responder::add_classic_request", "Responder::add_ietf_request", "Responder::send_responses",
+                  "Responder::make_response", "request::nonce_from_request routing (is_rfc_request, parsers)", "ServerStats recording"],
+    "bounds": "one batch of 1..2 (thorough 3) requests per protocol from distinct addresses, nonces symbolic (thorough: identical nonces "
+              "from two addresses), any clock, send failures by mask; routing: framed iff first 8 bytes are ROUGHTIM, parser verdict and "
+              "version for small frames",
+    "outside": "multi-batch interleavings on a live socket, bursts larger than the batch size, the event loop of Server::process_events "
+               "(65 KiB receive buffer and mio poll are not executed)",
+    "models": NET_MODELS,
+    "assumptions": [],
+}
+PROPS["C08"] = {
+    "functions": ["RtMessage::from_bytes", "RtMessage::to_string", "request::nonce_from_*", "Responder::send_responses", "Grease::should_add_error"],
+    "bounds": "panic-freedom (every Kani built-in check) of: decoding for the C05 shapes, display for the C06 shapes, request parsing for "
+              "the C07/C12 shapes, one responder batch for the C09 shapes",
+    "outside": "sequences of datagrams are reduced to one step from the post-reset responder state; log levels above Off (the debug! "
+               "arguments) are covered only by the nonce-length gate that makes nonce[0..4] safe; Server::process_events itself",
+    "models": NET_MODELS,
+    "assumptions": [],
+}
+
 NOT_APPLICABLE = {
     "C15": "observable is a running multi-threaded process (thread liveness, N workers binding one health-check port, poisoned mutex): Kani/CBMC has no threads, processes or sockets; a model of them would only check the model",
     "C18": "quantifies over OS schedules and SO_REUSEPORT datagram distribution across worker threads: CBMC/Kani does not handle concurrent Rust, the shared state is a lock-free crossbeam queue plus the kernel",
